@@ -175,6 +175,11 @@ class Session(EventRule):
             return '%s(%s)%s' % (ev, atom_name(a), '!' if 'sink' in outcome else '')
         if ev == 'CB:command_help':
             return 'CB:command_help(%s):%s' % (atom_name(args[1]) if len(args) > 1 else '?', outcome)
+        if ev == 'E.text_range' and len(args) > 1:
+            r = args[1]
+            if r[0] == 'adt' and r[1].endswith('RangeFrom') and r[3][0][0] == 'sym':
+                return 'E.text_range(%s..)' % r[3][0][1]
+            return 'E.text_range(?)'
         return ev + (':' + outcome if outcome else '')
 
     def on_symbranch(self, I, w, v, truth):
